@@ -90,6 +90,7 @@ Diff(E, L) ==
 InvViol(W, St) ==
     (IF C01_NoOversub(W, St) THEN {} ELSE {<<"inv", "C01_NoOversub">>}) \cup
     (IF C01_LedgerAgrees(W, St) THEN {} ELSE {<<"inv", "C01_LedgerAgrees">>}) \cup
+    (IF C01_Backed(W, St) THEN {} ELSE {<<"inv", "C01_Backed">>}) \cup
     (IF C01_SingleWorker(St) THEN {} ELSE {<<"inv", "C01_SingleWorker">>}) \cup
     (IF C01_AvRange(W, St) THEN {} ELSE {<<"inv", "C01_AvRange">>}) \cup
     (IF C04_IdleMeansFull(W, St) THEN {} ELSE {<<"inv", "C04_IdleMeansFull">>}) \cup
@@ -200,7 +201,8 @@ Next ==
                 v == (IF expect # "ev" THEN {<<"loop", "expected_step">>} ELSE {})
                      \cup PopViol(S, r)
                      \cup (IF h.err # "" /\ ~HasExc(r) THEN {<<"err_expected", h.err>>} ELSE {})
-                     \cup (IF h.err = "" /\ HasExc(r) THEN {<<"exc", "unexpected">>} ELSE {})
+                     \cup (IF h.err = "" /\ HasExc(r)
+                           THEN {<<"exc", IF r.ty = E_PLACEMENT THEN "unexpected_in_placement" ELSE "unexpected">>} ELSE {})
                      \cup (IF h.err = "" /\ ~HasExc(r) THEN Diff(h.S, L) ELSE {})
                      \cup (IF r.ty = E_PLACEMENT /\ r.t <= Len(S.ts) /\ S.ts[r.t].st = SCHEDULED
                               /\ L.ts[r.t].st = RUNNING /\ ~FuzzOK(World, S, r.t, L.ts[r.t].rem)
